@@ -62,6 +62,9 @@ type truth struct {
 	bad      *finding
 	// commands whose word is not a plain bareword (not asserted)
 	notAsserted int
+	// syntactic features of the executed text (used to name the cause of a wrong verdict)
+	castPrefix bool // a statement written `:type command …`
+	parenCmd   bool // the deprecated `(` quote used as a command
 }
 
 // plainWord: the raw command word is what will be looked up: letters, digits, _ ! . - only, or one of the
@@ -105,6 +108,12 @@ func analyse(text []rune, depth int, t *truth) {
 	for _, fn := range *tree {
 		name := string(fn.CommandName())
 		t.cmds++
+		if raw := strings.TrimLeft(string(fn.Raw), " \t"); strings.HasPrefix(raw, ":") {
+			t.castPrefix = true
+		}
+		if name == "(" {
+			t.parenCmd = true
+		}
 		if name == lang.ExpressionFunctionName {
 			for _, p := range fn.Parameters {
 				if isAssignment(p) {
@@ -425,16 +434,45 @@ func evaluate(line string) (res result) {
 // violates: the one-directional oracle. The clause names the cause:
 //   - "word-never-vetted": a command word ended by a flow token instead of a blank is never compared with
 //     the safe list (see neverVetted).
-//   - otherwise the base clause (unsafe-command / assignment / file-redirection / function-call / sub-shell):
-//     the tokenizer had its blanks and the verdict is still wrong.
+//   - otherwise "<base>/<feature>": base = unsafe-command / assignment / file-redirection / function-call /
+//     sub-shell (what the real parser would do), feature = the first syntactic trigger found in the executed
+//     text (see feature), "plain" if none: the tokenizer had its blanks and the verdict is still wrong.
 func violates(res result) *finding {
 	if res.panicked != "" || res.unsafeVerdict || res.noFlow || res.tr.rejected || res.tr.bad == nil {
 		return nil
 	}
+	base := res.tr.bad
 	if neverVetted(res.line) {
-		return &finding{"word-never-vetted", res.tr.bad.clause + ": " + res.tr.bad.what}
+		return &finding{"word-never-vetted", base.clause + ": " + base.what}
 	}
-	return res.tr.bad
+	return &finding{base.clause + "/" + feature(res), base.what}
+}
+
+// feature: the first syntactic trigger present in the executed text, in a fixed order; "plain" if none.
+func feature(res result) string {
+	ex := []rune(res.executed)
+	switch {
+	case gluedAppend(ex):
+		return "glued-append" // `>>` directly after a non-blank (or at the start): the tokenizer wants a blank before it
+	case res.tr.bad.clause == "function-call":
+		return "inline-call"
+	case res.tr.castPrefix:
+		return "cast-prefix"
+	case res.tr.parenCmd:
+		return "paren-command"
+	case strings.ContainsRune(res.executed, '\\'):
+		return "escape"
+	}
+	return "plain"
+}
+
+func gluedAppend(ex []rune) bool {
+	for i := 0; i+1 < len(ex); i++ {
+		if ex[i] == '>' && ex[i+1] == '>' && (i == 0 || ex[i-1] != ' ' && ex[i-1] != '\t') {
+			return true
+		}
+	}
+	return false
 }
 
 // neverVetted decides the cause "the tokenizer only compares a command word with the safe list when a blank
@@ -477,16 +515,22 @@ var tokX = func() int {
 	panic("no x token")
 }()
 
-// minimise: replace any contiguous run of tokens by nothing or by the single token `x`, as long as the line
-// still violates the same clause; repeat to a fixpoint. Deterministic (first improving candidate wins).
+// minimise: replace any contiguous run of tokens by nothing or by one of the simple tokens `x`, `out`, ` `, as
+// long as the line still violates the same clause and gets strictly simpler (fewer tokens, then simpler
+// tokens); repeat to a fixpoint. Deterministic (first improving candidate wins).
 func minimise(idx []int, clause string) []int {
 	cur := append([]int{}, idx...)
+	tokOut, tokSp := tokIndex("out"), tokIndex(" ")
 	weight := func(s []int) int {
 		w := 0
 		for _, t := range s {
-			w += 10
-			if t != tokX {
-				w++
+			switch t {
+			case tokX:
+				w += 100
+			case tokOut, tokSp:
+				w += 101
+			default:
+				w += 102
 			}
 		}
 		return w
@@ -496,7 +540,7 @@ func minimise(idx []int, clause string) []int {
 	search:
 		for span := len(cur); span >= 1; span-- {
 			for i := 0; i+span <= len(cur); i++ {
-				for _, repl := range [][]int{nil, {tokX}} {
+				for _, repl := range [][]int{nil, {tokX}, {tokOut}, {tokSp}} {
 					cand := append(append(append([]int{}, cur[:i]...), repl...), cur[i+span:]...)
 					if weight(cand) >= weight(cur) {
 						continue
